@@ -89,13 +89,27 @@ func runChild(dir string, scs []Scenario) (results []Result, crashedID int, tail
 	}
 	done := make(chan error, 1)
 	go func() { done <- cmd.Wait() }()
+	// The child writes a record when it starts a scenario and one when it has finished it
+	// (milliseconds apart): a result file that has not grown for a minute means the scenario
+	// that is running hangs. (Overall cap: five minutes per batch.)
 	var err error
-	select {
-	case err = <-done:
-	case <-time.After(5 * time.Minute):
-		cmd.Process.Kill()
-		err = fmt.Errorf("child timed out")
-		<-done
+	start, lastGrowth, lastSize := time.Now(), time.Now(), int64(-1)
+wait:
+	for {
+		select {
+		case err = <-done:
+			break wait
+		case <-time.After(time.Second):
+			if fi, e := os.Stat(rf); e == nil && fi.Size() != lastSize {
+				lastSize, lastGrowth = fi.Size(), time.Now()
+			}
+			if time.Since(lastGrowth) > time.Minute || time.Since(start) > 5*time.Minute {
+				cmd.Process.Kill()
+				err = fmt.Errorf("child timed out")
+				<-done
+				break wait
+			}
+		}
 	}
 	started := -1
 	if f, e := os.Open(rf); e == nil {
@@ -152,6 +166,14 @@ func runAll(dir string, scs []Scenario) (map[int]Result, map[int]string) {
 			defer wg.Done()
 			for b := range ch {
 				for len(b) > 0 {
+					// once six scenarios have crashed or hung the client the verdict is settled; the
+					// remaining batches are not run (every hang costs its watchdog's minute)
+					mu.Lock()
+					enough := len(crashes) >= 6
+					mu.Unlock()
+					if enough {
+						break
+					}
 					rs, cid, tail := runChild(dir, b)
 					mu.Lock()
 					for _, r := range rs {
@@ -623,12 +645,20 @@ func TestFamily(t *testing.T) {
 	}
 }
 
+var hungReruns int // re-runs in which the client crashed or hung
+
 // rerunMatches runs the implementation again (up to three times) on a scenario for which no
 // schedule of the model reproduced the first run, and reports whether some run is reproduced
 // and satisfies the specification. A deterministic difference fails every time.
 func rerunMatches(sc Scenario, prop string) bool {
+	if hungReruns >= 3 {
+		return false // the client hangs on re-runs (a minute each): the verdict is settled
+	}
 	for k := 0; k < 3; k++ {
 		rs, cid, _ := runChild(*flagOut, []Scenario{sc})
+		if cid >= 0 {
+			hungReruns++
+		}
 		if cid >= 0 || len(rs) != 1 || rs[0].Err != "" {
 			return false
 		}
@@ -664,8 +694,9 @@ func shrink(sc Scenario, d hcommon.Disagreement) hcommon.Disagreement {
 	}
 	cur := sc
 	budget := 40
-	for chunk := len(cur.Stims) / 2; chunk >= 1 && budget > 0; chunk /= 2 {
-		for i := 0; i+chunk <= len(cur.Stims) && budget > 0; {
+	deadline := time.Now().Add(2 * time.Minute) // a candidate that hangs the client costs its watchdog's minute
+	for chunk := len(cur.Stims) / 2; chunk >= 1 && budget > 0 && time.Now().Before(deadline); chunk /= 2 {
+		for i := 0; i+chunk <= len(cur.Stims) && budget > 0 && time.Now().Before(deadline); {
 			cand := cur
 			cand.End = 0
 			cand.Stims = append(append([]Stim{}, cur.Stims[:i]...), cur.Stims[i+chunk:]...)
